@@ -357,6 +357,11 @@ func (r *Run) Fail(t *rapid.T, replay any, sig, format string, a ...any) {
 		if _, ok := r.extra["EX:"+sig]; !ok {
 			r.extra["EX:"+sig] = msg
 		}
+		if rp := string(raw(replay)); len(rp) > 0 {
+			if old, ok := r.extra["CASE:"+sig].(string); !ok || len(rp) < len(old) {
+				r.extra["CASE:"+sig] = rp
+			}
+		}
 		r.mu.Unlock()
 		t.Skip("collected")
 	}
